@@ -749,5 +749,46 @@ pub fn vf_clone_paths(v: &Vec<std::path::PathBuf>) -> (r: Vec<std::path::PathBuf
     unimplemented!()
 }
 
-// the 32 key bytes --keyed reads from stdin
-pub uninterp spec fn sp_stdin_key() -> Seq<u8>;
+// everything standard input holds when --keyed reads the key from it
+pub uninterp spec fn sp_stdin_all() -> Seq<u8>;
+
+// the key --keyed reads from stdin (meaningful when stdin holds exactly 32 bytes)
+pub open spec fn sp_stdin_key() -> Seq<u8> {
+    sp_stdin_all()
+}
+
+// `std::io::stdin().lock().take(limit).read_to_end(&mut buf)?` (ASSUMED: std's Take / read_to_end): appends the first
+// min(limit, |stdin|) bytes of standard input to buf and returns their number, or fails (=> sp_env_failed())
+#[verifier::external_body]
+pub fn vf_stdin_take_read_to_end(buf: &mut Vec<u8>, limit: u64) -> (r: VfResult<usize>)
+    ensures
+        match r {
+            Ok(n) => n == (if sp_stdin_all().len() < limit { sp_stdin_all().len() } else { limit as nat }) && final(buf)@
+                == old(buf)@ + sp_stdin_all().take(n as int),
+            Err(_) => sp_env_failed(),
+        },
+{
+    unimplemented!()
+}
+
+// `slice.try_into().unwrap()` for `[u8; 32]`: panics unless the slice has 32 items (the precondition)
+#[verifier::external_body]
+pub fn vf_key_from_slice(s: &[u8]) -> (r: [u8; 32])
+    requires
+        s@.len() == 32,
+    ensures
+        r@ == s@,
+{
+    unimplemented!()
+}
+
+// `&v[..n]` on a Vec<u8>
+#[verifier::external_body]
+pub fn vf_vec_prefix(v: &Vec<u8>, n: usize) -> (r: &[u8])
+    requires
+        n <= v@.len(),
+    ensures
+        r@ == v@.take(n as int),
+{
+    unimplemented!()
+}
